@@ -86,8 +86,8 @@ Proof. exact ErrorLiteral.error_literal_left. Qed.
 Theorem C08_error_literal_right_operand : forall h b l s v evs, LRfull.xval h l = (Interp.ROk v, evs) ->
   LRfull.xval h (LRfull.XBin b l (LRfull.XErr s)) = (Interp.RRaise (Interp.err_of_text s), evs).
 Proof. exact ErrorLiteral.error_literal_right. Qed.
-Theorem C08_error_literal_argument : forall h name pre s post vs evs, LRfull.xvals (LRfull.xval h) pre = (Interp.ROk vs, evs) ->
-  LRfull.xval h (LRfull.XCall name (pre ++ LRfull.XErr s :: post)) = (Interp.RRaise (Interp.err_of_text s), evs).
+Theorem C08_error_literal_argument : forall h sp name pre s post vs evs, LRfull.xvals (LRfull.xval h) pre = (Interp.ROk vs, evs) ->
+  LRfull.xval h (LRfull.XCall sp name (pre ++ LRfull.XErr s :: post)) = (Interp.RRaise (Interp.err_of_text s), evs).
 Proof. exact ErrorLiteral.error_literal_argument. Qed.
 
 Print Assumptions C08_operator_left_error.
